@@ -240,11 +240,12 @@ func (g *ValGen) fill(v reflect.Value, depth int) {
 			return
 		}
 		n := 1 + g.r.Intn(4)
-		s := reflect.MakeSlice(t, n, n+g.r.Intn(3))
-		for i := 0; i < n; i++ {
-			g.fill(s.Index(i), depth-1)
+		spare := g.r.Intn(3)
+		s := reflect.MakeSlice(t, n+spare, n+spare)
+		for i := 0; i < n+spare; i++ {
+			g.fill(s.Index(i), depth-1) // the spare capacity holds stale elements
 		}
-		v.Set(s)
+		v.Set(s.Slice(0, n))
 	case reflect.Map:
 		if g.r.Chance(20) {
 			return // nil map
